@@ -105,8 +105,10 @@ def checkList (rec : List Frame → Key → Except Err (Bool × List Frame)) :
 
 /-- `check_cyclic_internal(computing = state of k, target)`: is `target` a registered callee of `k`
     or of a computing query reachable from `k` through registered callees?  Marks every computing
-    query on a path.  The code has no visited set; running out of `fuel` (> number of computing
-    queries) means the recursion never returns. -/
+    query on a path.  This is the walk WITHOUT a visited set (the code before 4685b5a, finding F33):
+    running out of `fuel` (> number of computing queries) means that recursion never returns.
+    `cycle_never_hangs` proves that a sequential fresh evaluation never gets there (the computing
+    table is a chain), so the visited set the code carries now is never consulted on these runs. -/
 def checkCyclic : Nat → Key → List Frame → Key → Except Err (Bool × List Frame)
   | 0, _, _, _ => .error .deadlock
   | fuel + 1, target, s, k =>
